@@ -595,4 +595,137 @@ Section Steps.
     rewrite (body_dashdash (set_optarg None s) pre rest Ea Hi Hp) in Hg.
     rewrite (loop_S_null f s _ Hg). reflexivity.
   Qed.
+
+  (* ---- the whole loop equals the reference parser (with searchopt's resolution) ---- *)
+  Definition mrest (rem : list str) : nat := length (concat rem) + length rem.
+
+  Lemma mrest_cons w rem : mrest (w :: rem) = S (length w + mrest rem).
+  Proof. unfold mrest. cbn [concat length]. rewrite app_length. lia. Qed.
+
+  Notation LS := (cod_short tb).
+  Notation LL := (cod_long tb).
+  Notation MI := (is_some miss).
+
+  Definition pack_result (p : list event * pfin) (rest : list str) (i : nat) : list event * nat :=
+    match p with
+    | (evs, PDone) => app_ev evs (spec_from LS LL MI rest (S i))
+    | (evs, PNeed name) =>
+      match rest with
+      | a :: rest' => app_ev evs (cons_ev (OptArg name a) (spec_from LS LL MI rest' (S (S i))))
+      | [] => (evs ++ [missing_ev MI name], S i)
+      end
+    end.
+
+  Lemma pack_result_cons ev (p : list event * pfin) rest i :
+    pack_result (let (e, f) := p in (ev :: e, f)) rest i = cons_ev ev (pack_result p rest i).
+  Proof. destruct p as [e [|name]]; cbn [pack_result]; [reflexivity|]. destruct rest; reflexivity. Qed.
+
+  Lemma cod_short_fm c :
+    LS c = match fm tb 0 [DASH; c] with Some (_, n, h, _) => Some (n, h) | None => None end.
+  Proof.
+    unfold cod_short. rewrite (first_match_fm tb 0). destruct (fm tb 0 [DASH; c]) as [[[[j n] h] v]|]; reflexivity.
+  Qed.
+
+  Lemma cod_long_fm body :
+    LL body = match fm tb 0 (DASH :: DASH :: body) with Some (_, n, h, v) => Some (n, h, v) | None => None end.
+  Proof. unfold cod_long. apply first_match_fm. Qed.
+
+  Lemma cons_res_ok ev (x : list event * nat) s' :
+    cons_res ev (Ok (x, s')) = Ok (cons_ev ev x, s').
+  Proof. destruct x. reflexivity. Qed.
+
+  Lemma classify_dd w : classify w = WDashDash -> w = [DASH; DASH].
+  Proof.
+    unfold classify. destruct w as [|c0 [|c1 r1]]; try discriminate.
+    - destruct (N.eqb c0 DASH); discriminate.
+    - destruct (N.eqb c0 DASH) eqn:E0; [|discriminate]. destruct (N.eqb c1 DASH) eqn:E1; [|discriminate].
+      destruct r1; [|discriminate]. intros _. apply N.eqb_eq in E0, E1. subst. reflexivity.
+  Qed.
+
+  Lemma classify_long w body : classify w = WLong body ->
+    exists b body', body = b :: body' /\ w = DASH :: DASH :: b :: body'.
+  Proof.
+    unfold classify. destruct w as [|c0 [|c1 r1]]; try discriminate.
+    - destruct (N.eqb c0 DASH); discriminate.
+    - destruct (N.eqb c0 DASH) eqn:E0; [|discriminate]. destruct (N.eqb c1 DASH) eqn:E1; [|discriminate].
+      destruct r1 as [|b body']; [discriminate|]. intros H. inversion H; subst.
+      apply N.eqb_eq in E0, E1. subst. eauto.
+  Qed.
+
+  Lemma classify_pack w cs : classify w = WPack cs ->
+    exists c r, cs = c :: r /\ w = DASH :: c :: r /\ c <> DASH.
+  Proof.
+    unfold classify. destruct w as [|c0 [|c1 r1]]; try discriminate.
+    - destruct (N.eqb c0 DASH); discriminate.
+    - destruct (N.eqb c0 DASH) eqn:E0; [|discriminate]. destruct (N.eqb c1 DASH) eqn:E1.
+      + destruct r1; discriminate.
+      + intros H. inversion H; subst. apply N.eqb_eq in E0. apply N.eqb_neq in E1. subst. eauto.
+  Qed.
+
+  Lemma app_one (pre : list str) (w : str) (rest : list str) : pre ++ w :: rest = (pre ++ [w]) ++ rest.
+  Proof. rewrite <- app_assoc. reflexivity. Qed.
+  Lemma len_one (pre : list str) (w : str) : length (pre ++ [w]) = S (length pre).
+  Proof. rewrite app_length. cbn [length]. lia. Qed.
+  Lemma len_one' (wp : str) (c : N) : length (wp ++ [c]) = S (length wp).
+  Proof. rewrite app_length. cbn [length]. lia. Qed.
+
+  Definition at_word_ok (fuel : nat) : Prop :=
+    forall s (pre rem : list str), ready s -> argv = pre ++ rem -> g_optind s = length pre -> g_packed s = None ->
+      mrest rem < fuel ->
+      exists s', loop fuel s argv = Ok (spec_from LS LL MI rem (length pre), s').
+
+  Definition in_pack_ok (fuel : nat) : Prop :=
+    forall s (pre : list str) (wp : str) c r (rest : list str), ready s ->
+      argv = pre ++ (wp ++ c :: r) :: rest -> g_optind s = length pre ->
+      (g_packed s = Some (length pre, length wp) \/ (g_packed s = None /\ wp = [DASH] /\ c <> DASH)) ->
+      S (length r) + mrest rest < fuel ->
+      exists s', loop fuel s argv = Ok (pack_result (spec_pack LS (c :: r)) rest (length pre), s').
+
+  Lemma in_pack_step f : at_word_ok f -> in_pack_ok f -> in_pack_ok (S f).
+  Proof.
+    intros IHw IHp s pre wp c r rest Hr Ea Hi Hp Hm.
+    (* after a character that takes no argument: rest of the pack, or the next word *)
+    assert (forall s1, ready s1 ->
+              match r with
+              | [] => g_optind s1 = S (length pre) /\ g_packed s1 = None
+              | _ :: _ => g_optind s1 = length pre /\ g_packed s1 = Some (length pre, S (length wp))
+              end ->
+              exists s', loop f s1 argv = Ok (pack_result (spec_pack LS r) rest (length pre), s')) as Hcont.
+    { intros s1 Hr1 Haft. destruct r as [|c2 r2].
+      - destruct Haft as [A1 A2].
+        destruct (IHw s1 (pre ++ [wp ++ [c]]) rest Hr1) as [s' Hs'];
+          [rewrite Ea; apply app_one | rewrite len_one; exact A1 | exact A2 | cbn [length] in Hm; lia |].
+        exists s'. rewrite Hs'. rewrite len_one. cbn [spec_pack pack_result app_ev app].
+        destruct (spec_from LS LL MI rest (S (length pre))); reflexivity.
+      - destruct Haft as [A1 A2].
+        destruct (IHp s1 pre (wp ++ [c]) c2 r2 rest Hr1) as [s' Hs'];
+          [rewrite Ea, <- app_assoc; reflexivity | exact A1 | left; rewrite len_one'; exact A2
+           | cbn [length] in Hm; lia |].
+        exists s'. exact Hs'. }
+    pose proof (iter_pack s pre wp c r rest Hr Ea Hi Hp) as Hit. cbv zeta in Hit.
+    cbn [spec_pack]. rewrite cod_short_fm.
+    destruct (fm tb 0 [DASH; c]) as [[[[j n] h] v]|].
+    - destruct h.
+      + destruct r as [|c2 r2].
+        * destruct rest as [|a rest'].
+          -- destruct Hit as (s1 & Hst & Hr1 & A1 & A2). destruct f as [|f']; [cbn [length mrest concat] in Hm; lia|].
+             exists (set_optarg None s1). rewrite Hst.
+             rewrite (stop_end s1 f' Hr1) by (rewrite A1, Ea, length_mid; cbn [length]; lia).
+             rewrite cons_res_ok. rewrite A1. reflexivity.
+          -- destruct Hit as (s1 & Hst & Hr1 & A1 & A2).
+             destruct (IHw s1 (pre ++ [wp ++ [c]; a]) rest' Hr1) as [s' Hs'];
+               [rewrite Ea, <- app_assoc; reflexivity | rewrite app_length; cbn [length]; lia | exact A2
+                | rewrite mrest_cons in Hm; lia |].
+             exists s'. rewrite Hst, Hs', cons_res_ok.
+             replace (length (pre ++ [wp ++ [c]; a])) with (S (S (length pre))) by (rewrite app_length; cbn [length]; lia).
+             cbn [pack_result app_ev app]. unfold cons_ev. reflexivity.
+        * destruct Hit as (s1 & Hst & Hr1 & A1 & A2).
+          destruct (IHw s1 (pre ++ [wp ++ c :: c2 :: r2]) rest Hr1) as [s' Hs'];
+            [rewrite Ea; apply app_one | rewrite len_one; exact A1 | exact A2 | cbn [length] in Hm; lia |].
+          exists s'. rewrite Hst, Hs', cons_res_ok. rewrite len_one. reflexivity.
+      + destruct Hit as (s1 & Hst & Hr1 & Haft). destruct (Hcont s1 Hr1 Haft) as [s' Hs'].
+        exists s'. rewrite Hst, Hs', cons_res_ok. rewrite pack_result_cons. reflexivity.
+    - destruct Hit as (s1 & Hst & Hr1 & Haft). destruct (Hcont s1 Hr1 Haft) as [s' Hs'].
+      exists s'. rewrite Hst, Hs', cons_res_ok. rewrite pack_result_cons. reflexivity.
+  Qed.
 End Steps.
